@@ -255,6 +255,27 @@ Section Pipe.
     end.
 End Pipe.
 
+(* ---------------------------------------------------------------- what is assumed of the reorder stage *)
+
+Section Trace.
+  Variable kb : N -> list kev.
+  Variable R : rstage.
+  Inductive rlabel := LAdd (x : N) | LFlush | LInt (a : RA R) | LOut (res : list kev).
+  (* the histories of the stage: any interleaving of its interface calls and internal actions *)
+  Inductive rrun : list rlabel -> RS R -> Prop :=
+  | rr_nil : rrun [] (rs_init R)
+  | rr_add : forall tr r x r', rrun tr r -> rs_add R r x = Some r' -> rrun (tr ++ [LAdd x]) r'
+  | rr_flush : forall tr r r', rrun tr r -> rs_flush R r = Some r' -> rrun (tr ++ [LFlush]) r'
+  | rr_int : forall tr r a r', rrun tr r -> rs_int R r a = Some r' -> rrun (tr ++ [LInt a]) r'
+  | rr_out : forall tr r res r', rrun tr r -> rs_out R r = Some (res, r') -> rrun (tr ++ [LOut res]) r'.
+  Definition ladds (tr : list rlabel) : list N := flat_map (fun l => match l with LAdd x => [x] | _ => [] end) tr.
+  Definition louts (tr : list rlabel) : list (list kev) := flat_map (fun l => match l with LOut res => [res] | _ => [] end) tr.
+  (* "emits fetch results one per input in input order": in every history the results received so far are the
+     key-by results of a prefix of the records added so far (C20: reorder_in_order for the repaired ReorderFetcher) *)
+  Definition rs_inorder : Prop :=
+    forall tr r, rrun tr r -> exists rest, map kb (ladds tr) = louts tr ++ rest.
+End Trace.
+
 (* ---------------------------------------------------------------- the specification *)
 
 Section Spec.
